@@ -233,3 +233,68 @@ Theorem C10_switches_old_refuted :
   /\ ~ (forall s, valid s = true -> spec s (run_swold s) = true).
 Proof. exact (conj switches_old_refuted run_swold_refuted). Qed.
 Print Assumptions C10_switches_old_refuted.
+
+(* --------------------------------------------------------------------------------------------------------------
+   SOURCE TIE (second extraction): the wiring tables of gen/Gen_C10.v (read from the text of MemoryLeakWarningPlugin.cpp) equal the tables DERIVED from clang's AST of the same file (gen/Gen_PlugC06.v: the assignments of each switch function, for every handler whether it declares the MemLeakScopedMutex first and which detector call with which allocator getter it makes)
+   -------------------------------------------------------------------------------------------------------------- *)
+From CppUVerif Require gen.Gen_PlugC06 C10_PlugTie.
+Local Open Scope Z_scope.
+Theorem C10_thread_safe_table_is_the_ast :
+  C10_PlugTie.derive Gen_PlugC06.src_turnOnThreadSafeNewDeleteOverloads = Some ts_table.
+Proof. exact C10_PlugTie.thread_safe_table_is_the_ast. Qed.
+Print Assumptions C10_thread_safe_table_is_the_ast.
+
+Theorem C10_default_table_is_the_ast :
+  C10_PlugTie.derive Gen_PlugC06.src_turnOnDefaultNotThreadSafeNewDeleteOverloads = Some default_table.
+Proof. exact C10_PlugTie.default_table_is_the_ast. Qed.
+Print Assumptions C10_default_table_is_the_ast.
+
+Theorem C10_off_table_is_the_ast :
+  C10_PlugTie.derive Gen_PlugC06.src_turnOffNewDeleteOverloads = Some off_table.
+Proof. exact C10_PlugTie.off_table_is_the_ast. Qed.
+Print Assumptions C10_off_table_is_the_ast.
+
+Theorem C10_lock_declared_iff_thread_safe_handler :
+  forallb
+  (fun h : String.string * (bool * list (String.string * String.string * String.string)) =>
+  eqb (fst (snd h)) (C10_PlugTie.is_threadsafe_name (fst h))) Gen_PlugC06.src_handlers = true.
+Proof. exact C10_PlugTie.lock_declared_iff_thread_safe_handler. Qed.
+Print Assumptions C10_lock_declared_iff_thread_safe_handler.
+
+Theorem C10_thread_safe_switch_assigns_only_thread_safe_handlers :
+  forallb (fun a : String.string * String.string => C10_PlugTie.is_threadsafe_name (snd a))
+  Gen_PlugC06.src_turnOnThreadSafeNewDeleteOverloads = true /\
+  forallb (fun a : String.string * String.string => negb (C10_PlugTie.is_threadsafe_name (snd a)))
+  (Gen_PlugC06.src_turnOnDefaultNotThreadSafeNewDeleteOverloads ++ Gen_PlugC06.src_turnOffNewDeleteOverloads) =
+  true /\
+  forallb (fun a : String.string * String.string => negb (C10_PlugTie.is_threadsafe_name (snd a)))
+  Gen_PlugC06.src_fptr_init = true.
+Proof. exact C10_PlugTie.thread_safe_switch_assigns_only_thread_safe_handlers. Qed.
+Print Assumptions C10_thread_safe_switch_assigns_only_thread_safe_handlers.
+
+Theorem C10_switches_assign_each_pointer_once :
+  C10_PlugTie.assigns_each_once Gen_PlugC06.src_turnOnThreadSafeNewDeleteOverloads = true /\
+  C10_PlugTie.assigns_each_once Gen_PlugC06.src_turnOnDefaultNotThreadSafeNewDeleteOverloads = true /\
+  C10_PlugTie.assigns_each_once Gen_PlugC06.src_turnOffNewDeleteOverloads = true.
+Proof. exact C10_PlugTie.switches_assign_each_pointer_once. Qed.
+Print Assumptions C10_switches_assign_each_pointer_once.
+
+Theorem C10_entry_points_agree :
+  C10_PlugTie.dispatch_diagonal = true /\
+  C10_PlugTie.ast_entry_points_cover = true /\ length dispatch_table = length Gen_PlugC06.src_entry_points.
+Proof. exact C10_PlugTie.entry_points_agree. Qed.
+Print Assumptions C10_entry_points_agree.
+
+Theorem C10_ast_thread_safe_wiring_ok :
+  exists t : wtable,
+  C10_PlugTie.derive Gen_PlugC06.src_turnOnThreadSafeNewDeleteOverloads = Some t /\ wiring_ok t = true.
+Proof. exact C10_PlugTie.ast_thread_safe_wiring_ok. Qed.
+Print Assumptions C10_ast_thread_safe_wiring_ok.
+
+Theorem C10_a_slip_is_seen :
+  match C10_PlugTie.derive C10_PlugTie.slipped_switch with
+  | Some t => wiring_ok t
+  | None => true
+  end = false.
+Proof. exact C10_PlugTie.a_slip_is_seen. Qed.
+Print Assumptions C10_a_slip_is_seen.
